@@ -65,7 +65,7 @@ class Limit(Exception):
 
 
 class Interp:
-    def __init__(self, repo, hooks_reenter=False, max_steps=4_000_000):
+    def __init__(self, repo, hooks_reenter=False, max_steps=4_000_000, sink_raises=True):
         self.repo = repo
         self.res = Resolver(repo)
         self.fo = Folder(repo)
@@ -75,6 +75,7 @@ class Interp:
         self.events: list[Event] = []
         self._ev_seen = set()
         self.hooks_reenter = hooks_reenter
+        self.sink_raises = sink_raises
         self.steps = 0
         self.max_steps = max_steps
         self.depth = 0
@@ -799,7 +800,7 @@ class Interp:
         if ftxt.endswith("_journaler.persist_msg") or name == "Journaler.persist_msg":
             d = unparse(e.args[2]).split(".")[-1] if len(e.args) > 2 else "?"
             self.event("persist", s, (qual, d), trail, e)
-            return [("normal", s, None, trail), ("raise", s, "DuplicateSeqNoError", trail + [f"L{e.lineno} persist_msg raises"])]
+            return [("normal", s, None, trail)] + ([("raise", s, "DuplicateSeqNoError", trail + [f"L{e.lineno} persist_msg raises"])] if self.sink_raises else [])
         if name == "Codec.encode" or ftxt.endswith("_codec.encode"):
             mv = self.value(e.args[0], s, env) if e.args else UNK
             ok = mv[1] if isinstance(mv, tuple) and mv[0] == "msg" else "?"
@@ -808,7 +809,7 @@ class Interp:
             if ok == "IN":
                 ok = s.kind
             self.event("encode", s, (qual, ok), trail, e)
-            return [("normal", s, "S", trail), ("raise", s, "EncodingError", trail + [f"L{e.lineno} encode raises"])]
+            return [("normal", s, "S", trail)] + ([("raise", s, "EncodingError", trail + [f"L{e.lineno} encode raises"])] if self.sink_raises else [])
         if ftxt.endswith("_socket_writer.write"):
             self.event("write", s, (qual,), trail, e)
             return [("normal", s, None, trail)]
@@ -883,9 +884,9 @@ class Interp:
         return outs
 
 
-def inbound(repo, hooks_reenter=False, **fixed):
+def inbound(repo, hooks_reenter=False, sink_raises=True, **fixed):
     """Interpret ``_process_message`` for every abstract inbound message and pre-state."""
-    it = Interp(repo, hooks_reenter=hooks_reenter)
+    it = Interp(repo, hooks_reenter=hooks_reenter, sink_raises=sink_raises)
     s0 = it.initial(**fixed)
     outs = it.run(CONN + "._process_message", s0, {"msg": ("msg", "IN"), "raw_msg": UNK, "self": UNK})
     return it, outs
